@@ -2,9 +2,12 @@
 Correspondence: Cors::get_headers / process_using_default_config / allow_all / _process (real
 code, with the process environment set per case) vs Rws.Cors (Lean model, environment as a
 parameter).  Oracle on the implementation alone, written from the property statement:
-exact membership of the Origin in the comma-split configuration, grants = configuration."""
-import itertools, unicodedata
-from vlib import common as C
+exact membership of the Origin in the comma-split configuration, grants = configuration.
+The same oracle judges the Access-Control-* headers of whole responses of the server entry points
+(serve mode of the harness, one process per configuration; implementation only).
+Input classes added by the generator audit: vlib/gen_c11.py (table: audit/C11/AUDIT.md)."""
+import itertools, unicodedata, threading
+from vlib import common as C, gen_c11 as X
 
 DRIVERS = ['Cors']   # model driver files this check runs: scopes translator failures to the tables they (and the proofs) import
 TRUSTED = ['Rust std: env::var (Err for absent or non-Unicode), str::parse::<bool>, str::split, Vec::contains, [String]::join (modelled in Rws.Cors)',
@@ -12,7 +15,8 @@ TRUSTED = ['Rust std: env::var (Err for absent or non-Unicode), str::parse::<boo
            'harness sets/removes the RWS_CONFIG_CORS_* process variables per case and restores them (single-threaded codec loop)']
 ASSUMPTIONS = ['protocol glue: hex fields, environment rendering name=value, Cors struct rendering',
                'environment values hold no NUL byte and names no "=" (cannot exist in a process environment)',
-               'independent oracle: Python str.split / list membership; str.lower() only for strings over ASCII + a fixed pool of pre-Unicode-14 characters']
+               'independent oracle: Python str.split / list membership; str.lower() only for strings over ASCII + a fixed pool of pre-Unicode-14 characters',
+               'whole responses: requests are well formed with header values the request parser leaves unchanged (no edge blanks, no control characters), so the Origin the server sees is the Origin sent']
 
 V = {k: 'RWS_CONFIG_CORS_' + k for k in ['ALLOW_ALL', 'ALLOW_ORIGINS', 'ALLOW_CREDENTIALS', 'ALLOW_HEADERS', 'ALLOW_METHODS', 'EXPOSE_HEADERS', 'MAX_AGE']}
 H = dict(o='Access-Control-Allow-Origin', c='Access-Control-Allow-Credentials', m='Access-Control-Allow-Methods',
@@ -23,11 +27,18 @@ POOL = '\u0130\u03a3\u03c3\u03c2\u0391\u03b1\u00df\u01c5\u01c4\u212a\u212b\u00c9
 SAFE = set(map(chr, range(128))) | set(POOL)
 
 def b(s): return s.encode('utf-8') if isinstance(s, str) else s
-def hx(s): return C.hx(b(s))
+_HX = {}
+def hx(s):
+    """hex field of a text / byte string (memoised: the same names and settings recur in tens of thousands of lines)"""
+    r = _HX.get(s)
+    if r is None:
+        r = C.hx(b(s))
+        if len(s) < 256: _HX[s] = r
+    return r
 
-def req_fields(method, headers, body=b''):
+def req_fields(method, headers, body=b'', uri='/x', version='HTTP/1.1'):
     hs = ','.join(hx(n) + ':' + hx(v) for n, v in headers) or '-'
-    return f'{hx(method)} {hx("/x")} {hx("HTTP/1.1")} {hs} {hx(body)}'
+    return f'{hx(method)} {hx(uri)} {hx(version)} {hs} {hx(body)}'
 def env_field(pairs):
     return ','.join(hx(n) + '=' + hx(v) for n, v in pairs) or '_'
 def cors_field(c):
@@ -137,6 +148,72 @@ def judge(res, entry, line, out, want):
     if set(w) != set(g) or any(v is not None and g[n] != v for n, v in w.items()):
         res.fail(entry + ':wrong-grants', line, out, None, f'expected exactly {want}'); return
 
+# ------------------------------------------------------------------ whole responses (implementation only; oracle = the same `want_get`)
+def run_server(plan):
+    """one `serve` harness process per environment: [(label, pairs, descriptor, Case, parsed result)]"""
+    from vlib import serve as S, servecheck as K
+    out = [None] * len(plan)
+    def work(i):
+        label, pairs, reqs = plan[i]
+        tree = S.Tree('root')
+        tree.file('root/file.txt', b'0123456789' * 30).file('root/sub/page.html', b'<p>page</p>').file('secret.txt', b'above the root')
+        cases = [K.mk(tree, d['method'], d['target'].replace('/FILE', '/file.txt'), d['headers'], body=d['body'], version=d['version'], entry=d['entry'], kind=d['kind']) for d in reqs]
+        env = [(k, v) for k, v in S.DEFAULT_ENV if not k.startswith('RWS_CONFIG_CORS')] + list(pairs)
+        rs = K.run_batches([(tree, cases)], with_model=False, env=env)
+        out[i] = [(label, pairs, d, c, r) for d, (c, r, il, ml) in zip(reqs, rs)] if tree.setup_ok else 'setup failed: ' + label
+    ts = [threading.Thread(target=work, args=(i,)) for i in range(len(plan))]
+    for t in ts: t.start()
+    for t in ts: t.join()
+    return out
+
+def judge_server(res, outs):
+    from vlib import servecheck as K
+    if outs is None:
+        res.fail('server:not-run', 'serve mode', None, None, 'the whole-server run did not finish'); return
+    for group in outs:
+        if not isinstance(group, list):
+            res.fail('server:setup', str(group), None, None, 'tree / environment of the whole-server run could not be set up'); continue
+        for label, pairs, d, c, r in group:
+            res.evaluations += 1
+            res.count('server: ' + d['kind']); res.count('server env: ' + label)
+            case = f'serve mode; env {env_field(pairs)}; {c.line[:600]}'
+            res.distinct.add(hash(case))
+            head = r['head']
+            if head.startswith(('panic', 'abort')):
+                res.fail('server:panic:' + head.split(' ', 1)[-1][:80], case, head, None, f'the server entry point {c.entry} panicked on {c.raw[:120]!r}'); continue
+            full = r['writes'][0] if r['writes'] else b''
+            if not full:
+                res.count('server: no response'); continue
+            resp, why = K.parse_resp(full)
+            if resp is None:
+                # not a well-formed response (C05's subject); the head is still searched for grant lines
+                headers = [tuple(x.strip() for x in ln.split(b':', 1)) for ln in full.split(b'\r\n\r\n')[0].split(b'\r\n')[1:] if b':' in ln]
+                headers = [(n.decode('latin1'), v.decode('latin1')) for n, v in headers]
+            else:
+                headers = resp['headers']
+            got = [(n, v.encode('latin1')) for n, v in headers if n.lower().startswith('access-control-')]
+            want = want_get(pairs, d['method'], [(n, v) for n, v in d['headers']])
+            shown = str([(n, v.decode('utf-8', 'replace')) for n, v in got])[:300]
+            canon = {n.lower(): n for n in GRANT_NAMES}
+            if any(n.lower() not in canon for n, _ in got):
+                res.fail('server:foreign-grant', case, shown, None, f'{label}: a response carries an Access-Control-* header that is not one of the six grants'); continue
+            if len({n.lower() for n, _ in got}) != len(got):
+                res.fail('server:duplicate-grant', case, shown, None, f'{label}: a grant header is repeated in the response'); continue
+            w = {n.lower(): (b(v) if v is not None else None) for n, v in want}
+            g = {n.lower(): v for n, v in got}
+            if not w and g:
+                res.fail('server:granted-unexpectedly', case, shown, None, f'{label}: {d["method"]} {d["target"]} {d["headers"]}: grants in the response although the Origin is absent / not one of the configured origins'); continue
+            if not d['strict']:
+                # an answer built without the request: it may carry no grants, but what it carries must be what the request earns
+                if any(n not in w or (w[n] is not None and w[n] != v) for n, v in g.items()):
+                    res.fail('server:wrong-grants', case, shown, None, f'{label}: expected at most {want}')
+                continue
+            if w and not g:
+                res.fail('server:grant-missing', case, shown, None, f'{label}: {d["method"]} {d["target"]} {d["headers"]}: expected grants {want}'); continue
+            if set(w) != set(g) or any(v is not None and g[n] != v for n, v in w.items()):
+                res.fail('server:wrong-grants', case, shown, None, f'{label}: {d["method"]} {d["target"]} {d["headers"]}: expected exactly {want}'); continue
+            res.count('server expected: grants' if w else 'server expected: no grants')
+
 # ------------------------------------------------------------------ generators
 CONF = ['https://foo.example', 'https://bar.example', 'http://localhost:8080', 'https://a.b']
 ORIGIN_KINDS = [
@@ -153,16 +230,21 @@ LISTS = [dict(ALLOW_METHODS='GET,POST,OPTIONS', ALLOW_HEADERS='Content-Type,X-Cu
 
 def run(res, tier, seed):
     rng = C.Rng(seed)
+    # whole-server observation (section 5c below): started first, it runs beside the generation and the codec run
+    server_out = {}
+    plan = X.server_plan(rng.fork('server'), tier)
+    th = threading.Thread(target=lambda: server_out.__setitem__('r', run_server(plan)))
+    th.start()
     lines, meta = [], []          # meta: (entry, want, class)
     def add(line, entry, want, cls):
         lines.append(line); meta.append((entry, want, cls))
-    def get(pairs, method, headers, cls, op='corsget'):
+    def get(pairs, method, headers, cls, op='corsget', **rq):
         want = (want_get if op == 'corsget' else want_default)(pairs, method, headers)
-        add(f'{op} {env_field(pairs)} {req_fields(method, headers)}', 'get_headers' if op == 'corsget' else 'process_using_default_config', want, cls)
-    def proc(c, method, headers, cls):
-        add(f'corsproc {cors_field(c)} {req_fields(method, headers)}', '_process', want_process(c, method, headers), cls)
-    def allow_all(method, headers, cls):
-        add(f'corsall {req_fields(method, headers)}', 'allow_all', want_allow_all(method, headers), cls)
+        add(f'{op} {env_field(pairs)} {req_fields(method, headers, **rq)}', 'get_headers' if op == 'corsget' else 'process_using_default_config', want, cls)
+    def proc(c, method, headers, cls, **rq):
+        add(f'corsproc {cors_field(c)} {req_fields(method, headers, **rq)}', '_process', want_process(c, method, headers), cls)
+    def allow_all(method, headers, cls, **rq):
+        add(f'corsall {req_fields(method, headers, **rq)}', 'allow_all', want_allow_all(method, headers), cls)
 
     # 0. regression: the F15 witnesses (pinned tree: all granted)
     f15 = [(V['ALLOW_ALL'], 'false'), (V['ALLOW_ORIGINS'], 'https://foo.example,https://bar.example'), (V['ALLOW_CREDENTIALS'], 'true')]
@@ -300,6 +382,18 @@ def run(res, tier, seed):
             rng.shuffle(pairs)
             get(pairs, method, headers, 'random get_headers', 'corsget' if which < 3 else 'corsdef')
 
+    # 5b. the classes added by the generator audit (audit/C11/AUDIT.md): near misses derived from every configured entry (ports,
+    #     schemes, letter case by component, wildcards, userinfo, homoglyphs ...), Origin headers holding a list, long lists, sizes,
+    #     the rest of the request (target, version, body, other headers), the preflight request against the configuration, list /
+    #     max-age / boolean spellings, method spellings on every entry point, every variable unreadable / misnamed / blank
+    class E: pass
+    E.get, E.proc, E.allow_all = staticmethod(get), staticmethod(proc), staticmethod(allow_all)
+    n_audit0 = len(lines)
+    X.codec_cases(rng.fork('audit'), tier, E)
+    n_audit = len(lines) - n_audit0
+    # 5c. the observation point the property names first: the Access-Control-* headers of whole responses of the server entry points
+    #     (Server::process, Server::process_request, App::execute, App::handle_request) under a configuration: started at the top of `run`
+
     # 6. malformed protocol input: both sides must refuse identically
     bad1, bad2, bad3, bad4, bad5 = C.hx(b'G\xff'), C.hx(b'a\xc0\x80'), C.hx(b'A=B'), C.hx(b'x\x00y'), C.hx(b'\xff')
     raw = [f'corsall {bad1} {hx("/")} {hx("HTTP/1.1")} - -',
@@ -320,11 +414,25 @@ def run(res, tier, seed):
                 'Origin header-name variants (case, U+0130, U+0131, Kelvin sign, padding), method spellings, switch/credential spellings incl. non-Unicode '
                 'values; Unicode lower-casing: 31 hand-picked strings (Final_Sigma contexts, multi-scalar images) judged by the oracle + a sweep of '
                 + ('every scalar value' if tier == 'thorough' else 'all scalars below U+20000 (every cased script) and 150 sampled 128-blocks above')
-                + ' in four contexts (differential only); random configurations with near-miss origins; a case is non-trivial when the request has an Origin header; '
-                'distinct = distinct protocol lines')
+                + ' in four contexts (differential only); random configurations with near-miss origins; '
+                f'generator audit ({n_audit} cases, vlib/gen_c11.py): about 135 near misses derived from EVERY configured entry of three lists at every list position (cut / doubled / swapped bytes, '
+                'text before and after, letter case by component, other / missing scheme, default / other / malformed port, sub- / parent / sibling domain, wildcard, userinfo, trailing dot, '
+                'percent-encoding, homoglyphs, normal forms, punycode, loopback aliases), through get_headers, _process, process_using_default_config and in echo mode; an Origin header holding '
+                'a list of origins (19 separators); configured lists of 5..257 entries (thorough: 10000) and runs of empty pieces; Origins / entries of 63..8193 bytes (thorough: 1 MiB) equal '
+                'but for one byte, long reflected and configured values; multi-byte origins; 22 request targets x 8 versions x 5 bodies; 57 sets of other request headers (credentials, '
+                'Sec-Fetch-*, Referer, Host / forwarded host naming a configured origin, CORS response names) before and after the Origin; Origin at every position among 1..257 headers; '
+                'the preflight request headers against the configured lists (member / not / case variant / "*" / empty), their presence, order, repetition and near-miss names on all four '
+                'entry points; 33 shapes of each list setting, 61 max-age values (0, leading zeros, signs, 7200 / 86400 / 2^31 / 2^32 / 2^63 / 2^64 boundaries, fractions, blanks, other digits), '
+                'every subset of the four preflight settings set / empty, 35 boolean spellings for the switch and the credentials; 30 method spellings on every entry point; every variable '
+                'non-Unicode, misnamed (12 near-miss names, also next to the right name) or blank; the shipped configuration values; '
+                f'whole responses of Server::process / process_request / App::execute / handle_request under {len(plan)} configurations (implementation only, same oracle): exactly the expected '
+                'Access-Control-* headers on every status path (200, 204, 206, multipart, 400, 404, 416), none on answers built without the request unless the request earns them; '
+                'a case is non-trivial when the request has an Origin header; distinct = distinct protocol lines')
     res.exhaustive = (f'get_headers over the finite product of switch x 0..4 origins x credentials x method x preflight x list settings x 13 Origin kinds ({n_product} cases)'
                       + ('; to_lowercase over every Unicode scalar value in four contexts' if tier == 'thorough' else ''))
     origin_hex = ':'  # a request with at least one header
+    th.join()
+    judge_server(res, server_out.get('r'))
     C.compare(res, lines, impl, model, 'Cors', nontrivial=lambda ln, a: '4f726967696e' in ln.lower() or '6f726967696e' in ln.lower())
     for ln, (entry, want, cls), a in zip(lines, meta, impl):
         if cls.startswith('product'):
